@@ -196,6 +196,22 @@ CLAIMED["C18"] = (
     "DESIGN.md §5 C18",
 )
 
+CLAIMED["C15"] = (
+    "Kernel-checked theorems: after ANY history of additions the image store holds at most one part per digest (so one "
+    "part per byte string) and pairwise distinct part names (the index is the proved-fresh first free index of C06); every "
+    "byte string added is present; different byte strings get different parts (SHA-1 injectivity is the stated hypothesis); "
+    "a new part carries the extension and content type of the image's format, not of its file name (structural: the file "
+    "name is not an input); the integer DPI is always in 1..2048; native size is the exact floor of 914400*px/dpi; with one "
+    "dimension given the other preserves the aspect ratio to within half a unit; 0 and None are both 'not given'.  Tied to "
+    "the code by exact comparison of part names/extensions/content types, DPI normalisation, native sizes and scaled sizes "
+    "on images generated with Pillow (5 formats, absent/fractional/0/huge/non-square DPI, misleading file names), added "
+    "as pictures, placeholders, movie posters and OLE icons with saves and re-opens in between, plus zip-level oracles.",
+    "Trusted: Pillow's sniffing of format/size/DPI (input to the model); float division in native size / scale (argued, "
+    "sampled; 1-EMU half-way cases recorded as artefacts); SHA-1 injectivity (hypothesis).",
+    "Lean 4 proof (store invariant under any history; interval arithmetic) + generated-image correspondence + zip oracles",
+    "DESIGN.md §5 C15",
+)
+
 NOT_YET = {}
 
 
